@@ -11,6 +11,10 @@ CONSTANTS
   MaxInFlight = 1
   ForgeBudget = 1
   Classes <- OnlyCrossLog
+  FineIngest = FALSE
+  Batch = FALSE
+  Worker = {}
+  Variant_ReadLatestBeforeBegin = FALSE
   Defect_PruneAfterFailedIngest = FALSE
   Defect_PruneFlagSkipsLatestCheck = FALSE
   Defect_LogIdFromTopicUnchecked = TRUE
